@@ -17,11 +17,29 @@ def argv_for(tool, data):
     """the argv the harness builds for this input (first byte = option line)"""
     inp, has_out, before = fuzzbuild.TARGETS[tool]
     opts = options(tool)[data[0] % len(options(tool))].split() if data else []
+    opts = [os.path.join(build.REPO, "include") if o == "@INC@" else o for o in opts]
     out = ["out"] if has_out else []
     return ([tool] + opts + [inp] + out) if before else ([tool, inp] + out + opts), inp
 
 
-def campaign(seed, seconds, workers_per_target=2, max_len=4096):
+def asl_seeds(d, max_len):
+    """the golden test sources that fit into max_len, with option line 0 (-q -i include)"""
+    from . import corpus
+    os.makedirs(d, exist_ok=True)
+    n = 0
+    for name in corpus.names():
+        try:
+            src = corpus.load(name)["src"]
+        except Exception:
+            continue
+        b = src if isinstance(src, bytes) else src.encode("latin-1", "replace")
+        if 0 < len(b) < max_len:
+            open(os.path.join(d, name), "wb").write(b"\0" + b)
+            n += 1
+    return n
+
+
+def campaign(seed, seconds, workers_per_target=2, max_len=4096, asl_workers=6):
     """returns (artifacts: list of (tool, path kind, bytes), stats per tool)"""
     fuzzbuild.build_all()
     base = run.mkwork("fuzzcamp")
@@ -34,10 +52,15 @@ def campaign(seed, seconds, workers_per_target=2, max_len=4096):
         os.makedirs(os.path.join(d, "corpus"))
         os.makedirs(os.path.join(d, "art"))
         seeds = os.path.join(FUZZ, "seeds", tool)
+        workers = workers_per_target
+        if tool == "asl":
+            seeds = os.path.join(d, "seeds")
+            asl_seeds(seeds, max_len)
+            workers = asl_workers
         regress = os.path.join(FUZZ, "regress", tool)
         argv = [fuzzbuild.exe(tool), "-seed=%d" % (seed % (1 << 31)), "-max_total_time=%d" % seconds,
                 "-max_len=%d" % max_len, "-timeout=20", "-rss_limit_mb=2048", "-handle_xfsz=0", "-entropic=0",
-                "-fork=%d" % workers_per_target, "-ignore_crashes=1", "-ignore_timeouts=1", "-ignore_ooms=1",
+                "-fork=%d" % workers, "-ignore_crashes=1", "-ignore_timeouts=1", "-ignore_ooms=1",
                 "-artifact_prefix=" + os.path.join(d, "art") + "/", "-print_final_stats=1",
                 os.path.join(d, "corpus")]
         for s in (seeds, regress):
